@@ -209,12 +209,12 @@ def aFindOrAdd (var : String) (hlow hhigh : Nat) (h : Nat) : AM Int := do
   wrapResult h (findOrAdd level lo hi)
 
 /-- `dd.bdd.BDD._add_int(i)` -/
-def addInt (i : Int) : M Int := do
+def addIntA (i : Int) : M Int := do
   let m ← M.get
   if !m.mem i then M.throw .value
   return i
 
-def aAddInt (i : Int) (h : Nat) : AM Int := wrapResult h (addInt i)
+def aAddInt (i : Int) (h : Nat) : AM Int := wrapResult h (addIntA i)
 
 def aImage (pre : Bool) (ht hs : Nat) (rn : List (Key × Key)) (qvars : List Key) (forall_ : Bool)
     (h : Nat) : AM Int := do
